@@ -6,7 +6,7 @@ patch=$(readlink -f "$1"); shift
 id=$$; wt=/tmp/benwt-$id; sc=/tmp/bensc-$id
 git -C /repo worktree add -q --detach "$wt" HEAD || exit 2
 if ! git -C "$wt" apply "$patch"; then echo "PATCH-DOES-NOT-APPLY"; git -C /repo worktree remove --force "$wt"; exit 2; fi
-base=$(/tmp/wt/baseline.sh "$wt" 2>&1 | tail -1)
+base=$("$(dirname "$(readlink -f "$0")")"/baseline_dir.sh "$wt" 2>&1 | tail -1)
 mkdir -p "$sc"
 for p in "$@"; do
   LISPSIM_REPO=$wt LISPSIM_BUILD=$sc/build LISPSIM_REPLAYS=$sc/replays LISPSIM_EVID=$sc/evid "$(dirname "$0")/../check" "$p" quick > "$sc/$p.out" 2>&1
